@@ -125,6 +125,13 @@ EFFECTS = [
     dict(file="FnLoopRc", src="client.py", qual="Client.ack", name="ack", params=[("mid", "Int"), ("qos", "Int")], ret="Int",
          attrs=[("_manual_ack", "Bool")], clock="now",
          calls={"_send_puback": dict(clobbers="*", args=1, returns=True), "_send_pubcomp": dict(clobbers="*", args=1, returns=True)}),
+    # (`try: <every path returns> finally: F`: the value returned is kept in a local, F runs, then it is returned; a call declared
+    # `pure` has no effect on the client - only its result, a parameter)
+    dict(file="FnSockCb", src="client.py", qual="Client.loop_write", name="loopWrite", params=[], ret="Int",
+         attrs=[("_sock", "Ref")], clock="now",
+         calls={"_packet_write": dict(clobbers="*", returns=True), "_loop_rc_handle": dict(clobbers="*", args=1, returns=True),
+                "want_write": dict(clobbers=[], returns="Bool", pure=True),
+                "_call_socket_register_write": dict(clobbers="*"), "_call_socket_unregister_write": dict(clobbers="*")}),
     # (two observers the properties speak about: `len(self.<attr>)` of a container attribute is the Int parameter `self_<attr>_len`)
     dict(file="FnLoopRc", src="client.py", qual="Client.is_connected", name="isConnected", params=[], ret="Bool",
          attrs=[("_state", "Int")], clock="now", calls={}),
@@ -750,6 +757,15 @@ class EffTr(Tr):
             if ta != "Ref" or tb != "Ref":
                 raise Missing(f"`is` between {ta} and {tb}")
             return (f"({a} == {b})" if isinstance(e.ops[0], ast.Is) else f"({a} != {b})"), "Bool"
+        if isinstance(e, ast.Call) and self.is_self_attr(e.func) and e.func.attr in self.cfg.get("calls", {}) \
+                and self.cfg["calls"][e.func.attr].get("pure") and not e.args and not e.keywords:
+            pn = "ret_" + e.func.attr.lstrip("_")
+            t = self.cfg["calls"][e.func.attr]["returns"]
+            t = "Int" if t is True else t
+            if any(x[0] == pn for x in self.extra):
+                raise Missing(f"self.{e.func.attr}() called twice")
+            self.extra.append((pn, t))
+            return pn, t
         if isinstance(e, ast.Call) and isinstance(e.func, ast.Name) and e.func.id == "len" and len(e.args) == 1 and self.is_self_attr(e.args[0]) \
                 and f"self.{e.args[0].attr}.len" in self.types:
             if e.args[0].attr in self.clobbered or "*" in self.clobbered or self.epoch:
@@ -866,7 +882,12 @@ class EffTr(Tr):
                     raise Missing(f"result of self.{s.value.func.attr}() bound twice")
                 out.append(self.call_eff(pad, s.value))
                 self.extra.append((pn, "Int"))
-                out.append(f"{pad}return ({pn}, effs)")
+                out.append(f"{pad}ret_val := {pn}" if getattr(self, "in_try_ret", False) else f"{pad}return ({pn}, effs)")
+            elif isinstance(s, ast.Return) and getattr(self, "in_try_ret", False):
+                val, t = self.expr(s.value)
+                if t != "Int":
+                    raise Missing(f"returns a {t}")
+                out.append(f"{pad}ret_val := {val}")
             elif isinstance(s, ast.Return) and self.cfg.get("ret") in ("Int", "Bool"):
                 val, t = self.expr(s.value)
                 if t != self.cfg["ret"]:
@@ -913,6 +934,25 @@ class EffTr(Tr):
                 out.append(self.call_eff(pad, v))
             elif isinstance(s, ast.Raise) and s.exc is None:
                 out.append(f"{pad}throw Exc.other")          # re-raises the user's exception
+            elif isinstance(s, ast.Try) and not s.handlers and not s.orelse and s.finalbody \
+                    and any(isinstance(n, ast.Return) for st in s.body for n in ast.walk(st)):
+                # every path through the body must end in `return`: the value goes to a local, the finally block runs, then it
+                # is returned (the finally block itself must not return)
+                def all_return(body):
+                    if not body:
+                        return False
+                    last = body[-1]
+                    if isinstance(last, ast.Return):
+                        return True
+                    return isinstance(last, ast.If) and all_return(last.body) and all_return(last.orelse)
+                if not all_return(s.body) or any(isinstance(n, ast.Return) for st in s.finalbody for n in ast.walk(st)) or self.cfg.get("ret") != "Int":
+                    raise Missing("try/finally: not every path of the body returns, or the finally block returns")
+                out.append(f"{pad}let mut ret_val : Int := 0")
+                self.in_try_ret = True
+                out += self.stmts(s.body, ind, ctl)
+                self.in_try_ret = False
+                out += self.stmts(s.finalbody, ind, ctl)
+                out.append(f"{pad}return (ret_val, effs)")
             elif isinstance(s, ast.Try) and not s.handlers and not s.orelse and s.finalbody:
                 out += self.stmts(s.body, ind, ctl)
                 out += self.stmts(s.finalbody, ind, ctl)
@@ -999,7 +1039,9 @@ class EffTr(Tr):
         L += [f"  let mut {lname(n)} := {lname(n)}" for n, _ in cfg["params"]]
         L += body
         if cfg.get("ret"):
-            if not (fn.body and isinstance(fn.body[-1], ast.Return)):
+            last = fn.body[-1] if fn.body else None
+            if not (isinstance(last, ast.Return) or (isinstance(last, ast.Try) and last.finalbody and not last.handlers
+                                                      and any(isinstance(n, ast.Return) for st in last.body for n in ast.walk(st)))):
                 raise Missing("function may fall off its end")
         else:
             L.append("  return effs")
